@@ -3,7 +3,8 @@
    RUN / CLEAR / NEW, and the COMMON rule of CHAIN.  One event = one history on the real interpreter:
      set     what the history established before the operation: set.vars[i] = [name, kind ("num"|"str"|"arr"|"sarr"), val], plus DEF FNA, DEFINT, OPTION BASE 1, RND advanced
      op      "RUN" | "CLEAR" | "NEW" | "CHAIN" | "CHAINALL" | "CHAINMERGE"
-     commons names declared COMMON in the chaining program
+     commons names declared COMMON in the chaining program (arrays as "NAME()": a scalar and an array of the same name are
+             different variables, and set.vars names arrays the same way)
      got     probe results after the operation: got.vars[i] = value read back (same order as set.vars),
              got.fn = error code of calling FNA (0 = still defined), got.defint = Z=1.5 reads back as 2,
              got.base1 = T(0) on a fresh array raises Subscript out of range, got.rnd = next RND value equals the
